@@ -7,7 +7,10 @@ STATE = {'monitor': None, 'installed': 0, 'classes': 0}
 
 
 class Monitor:
-    def __init__(self, step_limit=200000, snapshots=True, keep_objects=False):
+    def __init__(self, step_limit=200000, snapshots=True, keep_objects=False, window=None, node_budget=None):
+        self.window = window           # None: every slot is extracted; K: only the slots around the active top (the others as ('deep', None))
+        self.node_budget = node_budget  # bound on the total size of extracted values per run (memory guard); None: unbounded
+        self.nodes = 0
         self.events = []           # (prim, snapshot | None)
         self.entered = 0
         self.step_limit = step_limit
@@ -22,12 +25,34 @@ class Monitor:
 
     def snapshot(self, stack):
         out = []
-        for obj in stack.items:
+        lo = hi = None
+        if self.window is not None:
+            lo, hi = max(0, stack.protected - 1), stack.protected + self.window
+        for i, obj in enumerate(stack.items):
+            if lo is not None and not lo <= i < hi:
+                out.append(('deep', None))
+                continue
             try:
-                out.append((X.type_of_class(type(obj)), X.value_of(obj)))
+                v = X.value_of(obj)
+                out.append((X.type_of_class(type(obj)), v))
+                if self.node_budget is not None:
+                    self.nodes += approx_size(v)
             except Exception as e:   # noqa
                 out.append(('extract-error', '%s: %s' % (type(e).__name__, e)))
+        if self.node_budget is not None and self.nodes > self.node_budget:
+            raise HarnessAbort('snapshot budget')
         return out
+
+
+def approx_size(v):
+    if isinstance(v, (tuple, list)):
+        n = 1
+        for x in v:
+            n += approx_size(x)
+        return n
+    if isinstance(v, dict):
+        return 1 + sum(approx_size(x) for x in v.values())
+    return 1
 
 
 def _wrap(orig):
